@@ -21,6 +21,9 @@ import (
 	"golang.org/x/tools/go/ssa"
 )
 
+var profileSteps map[*ssa.Function]int // debugging (single worker only)
+var forkSites map[string]int
+
 type continuation int
 
 const (
@@ -225,7 +228,16 @@ func visitInstr(fr *frame, instr ssa.Instruction) continuation {
 				succ = 0
 			}
 		case sym:
-			if fr.branch(c.t) {
+			if forkSites != nil {
+				before := m.res.NewItems
+				if fr.branch(c.t) {
+					succ = 0
+				}
+				if m.res.NewItems > before {
+					p := m.prog.fset.Position(instr.Cond.Pos())
+					forkSites[fmt.Sprintf("%s %s:%d", fr.fn.Name(), shortPath(p.Filename), p.Line)]++
+				}
+			} else if fr.branch(c.t) {
 				succ = 0
 			}
 		}
@@ -399,12 +411,14 @@ func visitInstr(fr *frame, instr ssa.Instruction) continuation {
 // boundsCheck forks on 0 <= idx < n; the out-of-range side is a target panic.
 func (fr *frame) boundsCheck(idx sym, n int) {
 	tt := fr.m.tt
-	var inRange *Term
+	// compare in 64 bits so that the length always fits
+	var wide *Term
 	if kindSigned(idx.k) {
-		inRange = tt.And(tt.Bin(OpSLe, tt.Const(0, idx.t.w), idx.t), tt.Bin(OpSLt, idx.t, tt.Const(uint64(n), idx.t.w)))
+		wide = tt.SExt(idx.t, 64)
 	} else {
-		inRange = tt.Bin(OpULt, idx.t, tt.Const(uint64(n), idx.t.w))
+		wide = tt.ZExt(idx.t, 64)
 	}
+	inRange := tt.Bin(OpULt, wide, tt.Const(uint64(n), 64))
 	if !fr.branch(inRange) {
 		rtPanic("runtime error: index out of range [symbolic] with length %d", n)
 	}
@@ -502,6 +516,17 @@ func (m *Machine) callSSA(caller *frame, callpos token.Pos, fn *ssa.Function, ar
 	if info.intrinsic != nil {
 		return info.intrinsic(fr, args)
 	}
+	if info.mergeable >= 0 && caller != nil && !m.opts.NoMerge {
+		for _, a := range args {
+			if _, ok := a.(sym); ok {
+				if m.prog.mergeable(fn, map[*ssa.Function]bool{}) {
+					m.funcsSeen[fn] = struct{}{}
+					return m.evalMerged(caller, fn, args)
+				}
+				break
+			}
+		}
+	}
 	if fn.Blocks == nil {
 		panic(engineError{"no code for function: " + info.name})
 	}
@@ -561,6 +586,10 @@ func runFrame(fr *frame) {
 	m := fr.m
 	for {
 		nonPhis := executePhis(fr)
+		if profileSteps != nil {
+			profileSteps[fr.fn] += len(nonPhis)
+			m.curFn = fr.fn
+		}
 		for _, instr := range nonPhis {
 			m.steps++
 			if m.steps > m.budget {
@@ -659,6 +688,10 @@ func (p *Program) constVal(c *ssa.Const) value {
 		return v
 	}
 	v := constValue(c)
+	switch v.(type) {
+	case structure, array:
+		return v // aggregates are mutable boxes: never shared
+	}
 	p.consts.Store(c, v)
 	return v
 }
@@ -764,12 +797,20 @@ type Machine struct {
 	prog    *Program
 	globals map[*ssa.Global]*value
 	inited  map[*ssa.Package]bool
+	stdGlobals map[*ssa.Global]*value
+	stdInited  map[*ssa.Package]bool
 	tt      *TermTable
 	solver  *Solver
 	opts    *Options
 
 	// path state
 	pc        []*Term
+	prevPC    []*Term // path condition of the previous path run by this worker
+	prevTrail []Decision
+	prevPCAt  []int // len(pc) just before decision i of the previous path
+	pcAt      []int
+	shared    int // number of leading pc terms assumed already asserted in the solver
+	epoch     int
 	synced    int
 	trail     []Decision
 	dpos      int
@@ -780,6 +821,7 @@ type Machine struct {
 	depth     int
 	ndCount   int
 	ndVars    []*Term
+	pathVars  []*Term
 	res       *PathResult
 	emit      func(WorkItem)
 	funcsSeen map[*ssa.Function]struct{}
@@ -802,6 +844,8 @@ type Machine struct {
 	end     pathEnd
 	rootFn  *ssa.Function
 	initDirect *ssa.Function
+	curFn      *ssa.Function
+	fixedPos   int
 	hostWG  sync.WaitGroup
 }
 
@@ -814,6 +858,8 @@ type Options struct {
 	Trace        bool
 	MaxDepth     int
 	PoolReuse    bool
+	NoMerge      bool
+	Fixed        []uint64
 }
 
 func NewMachine(p *Program, opts *Options) (*Machine, error) {
@@ -821,15 +867,34 @@ func NewMachine(p *Program, opts *Options) (*Machine, error) {
 	if err != nil {
 		return nil, err
 	}
-	return &Machine{prog: p, solver: s, opts: opts, funcsSeen: map[*ssa.Function]struct{}{}}, nil
+	return &Machine{prog: p, solver: s, opts: opts, funcsSeen: map[*ssa.Function]struct{}{},
+		stdGlobals: map[*ssa.Global]*value{}, stdInited: map[*ssa.Package]bool{}}, nil
+}
+
+// isStdPkg: standard-library packages. Their globals (tables, error values) are initialised
+// once per worker and kept across paths; packages of the repository and third-party modules
+// are re-initialised on every path.
+func isStdPkg(path string) bool {
+	i := strings.IndexByte(path, '/')
+	first := path
+	if i >= 0 {
+		first = path[:i]
+	}
+	return !strings.Contains(first, ".")
 }
 
 func (m *Machine) global(g *ssa.Global) *value {
 	if p, ok := m.globals[g]; ok {
 		return p
 	}
+	if p, ok := m.stdGlobals[g]; ok {
+		return p
+	}
 	m.ensureInit(g.Pkg, nil)
 	if p, ok := m.globals[g]; ok {
+		return p
+	}
+	if p, ok := m.stdGlobals[g]; ok {
 		return p
 	}
 	cell := zero(mustDeref(g.Type()))
@@ -839,16 +904,23 @@ func (m *Machine) global(g *ssa.Global) *value {
 }
 
 func (m *Machine) ensureInit(pkg *ssa.Package, caller *frame) {
-	if m.inited[pkg] {
+	if m.inited[pkg] || m.stdInited[pkg] {
 		return
 	}
-	m.inited[pkg] = true
+	std := isStdPkg(pkg.Pkg.Path())
+	gl := m.globals
+	if std {
+		m.stdInited[pkg] = true
+		gl = m.stdGlobals
+	} else {
+		m.inited[pkg] = true
+	}
 	// allocate storage for all globals of the package
 	for _, mem := range pkg.Members {
 		if g, ok := mem.(*ssa.Global); ok {
-			if _, ok := m.globals[g]; !ok {
+			if _, ok := gl[g]; !ok {
 				cell := zero(mustDeref(g.Type()))
-				m.globals[g] = &cell
+				gl[g] = &cell
 			}
 		}
 	}
@@ -859,7 +931,7 @@ func (m *Machine) ensureInit(pkg *ssa.Package, caller *frame) {
 		// errors.init uses reflectlite; errors.Is/As are intrinsics, so only ErrUnsupported matters
 		if g, ok := pkg.Members["ErrUnsupported"].(*ssa.Global); ok {
 			if newFn := pkg.Func("New"); newFn != nil {
-				*m.globals[g] = m.callSSA(caller, token.NoPos, newFn, []value{"unsupported operation"}, nil)
+				*gl[g] = m.callSSA(caller, token.NoPos, newFn, []value{"unsupported operation"}, nil)
 			}
 		}
 		return
@@ -869,9 +941,13 @@ func (m *Machine) ensureInit(pkg *ssa.Package, caller *frame) {
 		return
 	}
 	saved := m.depth
+	savedSteps := m.steps
 	m.initDirect = initFn
 	m.callSSA(caller, token.NoPos, initFn, nil, nil)
 	m.depth = saved
+	if std {
+		m.steps = savedSteps // one-off cost, not charged to the path budget
+	}
 }
 
 // ---------------------------------------------------------------- path condition / decisions
@@ -889,10 +965,26 @@ func (m *Machine) addPC(t *Term) {
 	if t.IsTrue() {
 		return
 	}
+	idx := len(m.pc)
 	m.pc = append(m.pc, t)
+	// the first m.shared terms are assumed to be asserted already (prefix shared with the
+	// previous path of this worker); verify, and fall back if execution diverged
+	if idx < m.shared {
+		if idx >= len(m.prevPC) || m.prevPC[idx] != t {
+			m.solver.PopTo(idx)
+			m.shared = idx
+			m.synced = idx
+		}
+	}
 }
 
 func (m *Machine) syncSolver() {
+	if m.shared > len(m.pc) {
+		// the path is shorter than the shared region: drop the surplus assertions
+		m.solver.PopTo(len(m.pc))
+		m.shared = len(m.pc)
+		m.synced = len(m.pc)
+	}
 	for m.synced < len(m.pc) {
 		m.solver.Assert(m.tt, m.pc[m.synced])
 		m.synced++
@@ -905,7 +997,7 @@ func (m *Machine) checkSat(lit *Term, neg bool) (SatResult, Model) {
 	m.res.SolverChecks++
 	r := m.solver.Check(m.tt, lit, neg)
 	if r == Sat {
-		md, err := m.solver.ModelFor(m.tt.vars)
+		md, err := m.solver.ModelFor(m.pathVars)
 		if err != nil {
 			return Unknown, nil
 		}
@@ -938,6 +1030,10 @@ func (fr *frame) branch(c *Term) bool {
 
 func (m *Machine) branch(c *Term) bool {
 	tt := m.tt
+	m.pcAt = append(m.pcAt, len(m.pc))
+	if c.taint {
+		m.inconclusive("control flow depends on an opaque formatted string")
+	}
 	if m.dpos < len(m.trail) {
 		d := m.trail[m.dpos]
 		if d.Kind != dBranch {
@@ -965,6 +1061,9 @@ func (m *Machine) branch(c *Term) bool {
 	case Sat:
 		m.emit(WorkItem{Trail: m.childTrail(Decision{Kind: dBranch, Out: b2u(!cur)}), Model: md})
 		m.res.NewItems++
+		if forkSites != nil && m.curFn != nil {
+			forkSites["fn "+m.curFn.String()]++
+		}
 	case Unknown:
 		m.inconclusive("solver unknown on branch feasibility: " + m.solver.lastErr)
 	}
@@ -983,6 +1082,7 @@ func (m *Machine) choose(n int) int {
 	if n <= 1 {
 		return 0
 	}
+	m.pcAt = append(m.pcAt, len(m.pc))
 	if m.dpos < len(m.trail) {
 		d := m.trail[m.dpos]
 		if d.Kind != dChoice {
@@ -1010,6 +1110,7 @@ func (m *Machine) concretize(fr *frame, s sym) value {
 		return fromBits(s.k, s.t.val)
 	}
 	var excl []uint64
+	m.pcAt = append(m.pcAt, len(m.pc))
 	if m.dpos < len(m.trail) {
 		d := m.trail[m.dpos]
 		if d.Kind != dValue {
@@ -1047,6 +1148,9 @@ func (m *Machine) concretize(fr *frame, s sym) value {
 		} else {
 			m.emit(WorkItem{Trail: m.childTrail(Decision{Kind: dValue, Open: true, Excl: nexcl}), Model: md})
 			m.res.NewItems++
+			if forkSites != nil && fr != nil {
+				forkSites["concretize in "+fr.fn.String()]++
+			}
 		}
 	case Unknown:
 		m.inconclusive("solver unknown on value enumeration")
